@@ -101,7 +101,7 @@ def parse(mo):
 
 # ------------------------------------------------------------------------------------------------
 NAME_SP = "split_points"
-RULE_SP = ("split_points: _split_peaks on one parent of 1..5 (thorough 6) samples with dt in {1,2,4}, orig_dt in {1,2}, "
+RULE_SP = ("split_points: _split_peaks on one parent of 1..7 (thorough 8) samples with dt in {1,2,4}, orig_dt in {1,2}, "
            "area above/below min_area, and EVERY increasing list of split points out of 0..n (plus a few "
            "non-increasing ones), fed through a numba split finder; non-trivial = >= 2 children; distinct by JSON.")
 
@@ -114,7 +114,7 @@ def unit_sp(ctx):
 def _unit_sp(ctx):
     u = Unit(ctx, NAME_SP)
     cases = []
-    nmax = 6 if big(ctx) else 5
+    nmax = 8 if big(ctx) else 7
     for n in range(1, nmax + 1):
         for k in range(0, n + 2):
             for splits in itertools.combinations(range(0, n + 1), k):
